@@ -355,7 +355,7 @@ func (in In) valid() bool {
 	for i := 0; i < n; i++ {
 		for j := 0; j < n; j++ {
 			d := in.Dep[i][j]
-			if d < 0 || d > in.NB[j] || (i == j && d != 0) {
+			if d < 0 || d > in.NB[j] { // the diagonal (a source build-depending on its own binary) is allowed
 				return false
 			}
 			if in.Field[i][j] < 0 || in.Field[i][j] > 2 || in.Deco[i][j] < 0 || in.Deco[i][j] >= len(decos) {
@@ -607,11 +607,8 @@ func (in In) edgesInto(i int, arch string) []edge {
 				continue
 			}
 			a := fr.r.Alts[c]
-			// is the chosen name a binary of another source?
+			// is the chosen name a binary of a source of the set (its own included: a self-edge)?
 			for j := 0; j < in.N; j++ {
-				if j == i {
-					continue
-				}
 				for k := 1; k <= in.NB[j]; k++ {
 					if a.Name == in.bin(j, k) {
 						es = append(es, edge{From: j, To: i, Bin: k,
@@ -661,6 +658,9 @@ func features(in In, es []edge) []string {
 		}
 		if e.FoldedLast {
 			m["edge-via-folded-last-name"] = true
+		}
+		if e.From == e.To {
+			m["self-dependency"] = true
 		}
 	}
 	var f []string
@@ -1023,16 +1023,31 @@ func (g graph) expand(n int) In {
 	for i := 0; i < n; i++ {
 		in.NB[i] = int(g[i])
 	}
+	full := len(g) == n+n*n // with the diagonal: the whole n×n matrix, row by row
 	k := n
 	for i := 0; i < n; i++ {
 		for j := 0; j < n; j++ {
-			if i != j {
+			if i != j || full {
 				in.Dep[i][j] = int(g[k])
 				k++
 			}
 		}
 	}
 	return in
+}
+
+// selfDeps: number of sources that build-depend on a binary of their own (graphs with the diagonal only).
+func (g graph) selfDeps(n int) int {
+	if len(g) != n+n*n {
+		return 0
+	}
+	d := 0
+	for i := 0; i < n; i++ {
+		if g[n+i*n+i] != 0 {
+			d++
+		}
+	}
+	return d
 }
 
 func (g graph) deps(n int) int {
@@ -1046,7 +1061,10 @@ func (g graph) deps(n int) int {
 }
 
 // baseGraphs enumerates every (NB, Dep) over n sources.
-func baseGraphs(n int) []graph {
+func baseGraphs(n int) []graph { return enumGraphs(n, false) }
+
+// enumGraphs: diag = the diagonal too (Dep[i][i]: a source build-depends on its own first / second binary).
+func enumGraphs(n int, diag bool) []graph {
 	var out []graph
 	for m := 0; m < 1<<n; m++ {
 		nb := make([]byte, n)
@@ -1057,7 +1075,7 @@ func baseGraphs(n int) []graph {
 		var tgt []int
 		for i := 0; i < n; i++ {
 			for j := 0; j < n; j++ {
-				if i != j {
+				if i != j || diag {
 					tgt = append(tgt, j)
 				}
 			}
@@ -1187,6 +1205,7 @@ type scen struct {
 	layout    bool              // per-source field-layout Deviate points (spread over fields, 0..7 extra relations per field, their kind, position)
 	oneBinary bool              // only graphs in which every source has one binary
 	onlyLay   bool              // ONLY field and layout points deviate (decoration, unknown, folding stay default)
+	diag      bool              // the diagonal is enumerated too: sources may build-depend on their own binaries
 	alias     map[string]string // alphabet audit: names used instead of the default ones
 	extra     []string          // alphabet audit: extra fields written into every .dsc
 }
@@ -1194,7 +1213,7 @@ type scen struct {
 func explore(r *mc.Run, sc scen) {
 	name, n, k, perms, archSet, decoN := sc.name, sc.n, sc.k, sc.perms, sc.archSet, sc.decoN
 	var graphs []graph
-	for _, g := range baseGraphs(n) {
+	for _, g := range enumGraphs(n, sc.diag) {
 		if sc.maxDeps >= 0 && g.deps(n) > sc.maxDeps {
 			continue
 		}
@@ -1214,7 +1233,7 @@ func explore(r *mc.Run, sc scen) {
 	}
 	bounds := map[string]interface{}{"sources": n, "binaries_per_source": "1|2", "base_graphs": len(graphs), "architectures": archSet,
 		"input_orders": "all permutations", "deviation_bound_k": k, "graphs_restricted_to_at_most_dependencies": sc.maxDeps,
-		"one_binary_per_source_only": sc.oneBinary, "deviation_points": points, "decorations": decoNames(decoN)}
+		"one_binary_per_source_only": sc.oneBinary, "self_dependencies_enumerated": sc.diag, "deviation_points": points, "decorations": decoNames(decoN)}
 	wit := &witnesses{}
 	r.Scenario(name, bounds, nsh, func(sh int, st *mc.Stats) bool {
 		defer func() { wit.shardDone(nsh, r.Expired(), st) }()
@@ -1323,10 +1342,11 @@ func explore(r *mc.Run, sc scen) {
 }
 
 func Run(r *mc.Run) {
-	r.Rule = "every build-dependency graph over n sources with 1|2 binaries (per ordered pair: none / first binary / second binary) × architecture × input order × ≤k deviations (field, decoration, unknown dependency, folding); each execution is a distinct input by construction (distinct choice vectors give distinct models); non-trivial = the model edge set is not empty"
+	r.Rule = "every build-dependency graph over n sources with 1|2 binaries (per ordered pair: none / first binary / second binary; in graphs-n1, selfdeps-* and call-sequences also the diagonal: a source build-depending on its own first / second binary) × architecture × input order × ≤k deviations (field, decoration, unknown dependency, folding); each execution is a distinct input by construction (distinct choice vectors give distinct models); non-trivial = the model edge set is not empty"
 	r.Assume = []string{
 		"edge set from the model: per relation the first non-substvar alternative whose architecture list admits the build architecture (concrete architectures amd64/i386, so admission is equality); an edge Sj→Si when that name is a binary of another source Sj; version constraints do not remove an edge",
-		"self-dependencies, duplicate source names and a binary built by two sources are outside the alphabet",
+		"a source that build-depends on one of its own binaries (the diagonal of the graph) is INSIDE the alphabet: it cannot come after itself, so a self-edge is a dependency cycle and the call must fail (the pinned tree does: 'Cycle detected'); decorations apply as elsewhere (a self-dependency behind an alternative that is taken instead, or restricted away for the architecture, is no edge)",
+		"duplicate source names and a binary built by two sources are outside the alphabet",
 		"ParseDsc results are memoised per rendered .dsc text inside a shard (same text, same parse — determinism of parsing is C18's business); OrderDSCForBuild is executed for every case, and a second time (same-outcome clause) for every model × architecture on the first and the last input order; Replay always runs it twice",
 		"folded build-dependency fields and a folded Binary field are counted as 'ordinary' .dsc (RFC822 continuation lines, as dpkg-source writes long fields)",
 	}
@@ -1335,8 +1355,13 @@ func Run(r *mc.Run) {
 	both, three := archs[:2], archs // the third build architecture (non-linux) only where the whole decoration alphabet is explored
 	nFull := len(decos)
 	p1, p2, p3 := permutations(1), permutations(2), permutations(3)
-	explore(r, scen{name: "graphs-n1-k2", n: 1, k: 2, perms: p1, archSet: both, maxDeps: -1, decoN: nBasic, layout: true})
+	explore(r, scen{name: "graphs-n1-k2", n: 1, k: 2, perms: p1, archSet: three, maxDeps: -1, decoN: nFull, layout: true, diag: true})
 	explore(r, scen{name: "graphs-n2-k2", n: 2, k: 2, perms: p2, archSet: both, maxDeps: -1, decoN: nCore, layout: true})
+	// self-dependencies: the whole n×n matrix
+	explore(r, scen{name: "selfdeps-n2-k1-alldecorations", n: 2, k: 1, perms: p2, archSet: three, maxDeps: -1, decoN: nFull, diag: true})
+	explore(r, scen{name: "selfdeps-n2-k2", n: 2, k: 2, perms: p2, archSet: both, maxDeps: -1, decoN: nBasic, diag: true})
+	explore(r, scen{name: "selfdeps-n3-k0", n: 3, k: 0, perms: p3, archSet: both, maxDeps: -1, decoN: nBasic, diag: true})
+	explore(r, scen{name: "selfdeps-n3-k1-upto2deps", n: 3, k: 1, perms: p3, archSet: both, maxDeps: 2, decoN: nCore, diag: true})
 	if r.Quick() {
 		explore(r, scen{name: "graphs-n2-k1-alldecorations", n: 2, k: 1, perms: p2, archSet: three, maxDeps: -1, decoN: nFull})
 		explore(r, scen{name: "graphs-n3-k1", n: 3, k: 1, perms: p3, archSet: both, maxDeps: -1, decoN: nCore})
